@@ -156,6 +156,7 @@ pub fn run(cfg: &Cfg) -> (&'static str, Report, String, String) {
     // every lead-byte class: all strings of <= 2 (miri: 1) chars over LEADS + LEADS_HI3
     let mut la: Vec<&str> = LEADS.to_vec();
     la.extend(LEADS_HI3);
+    la.extend(ASCII_EDGES);
     let lstrings = strings_upto(&la, cfg.by(1, 2, 3));
     rep.merge(par_for(cfg, lstrings.len(), |i, r| check_string(r, &lstrings[i])));
     let nrand = cfg.by(10, 300, 4000);
